@@ -195,12 +195,14 @@ CLAIMED = {
              'emit_no_patterns (pre-definitions and BEGIN actions first, at most one whenever loop, END actions last, nothing else), '
              'main_loop_in_source_order / pattern_order (k-th when = k-th pattern statement), and_runs_iff_all (for neutral conditions (&& c1..cn) '
              'is true exactly when all are truthy), chainl_value (left-to-right value of an operator chain), transpile_bin / transpile_chain_head '
-             '(binary nodes, no re-association). Correspondence: generated WAWK programs: AST.emit vs the Lean emit, then every emitted form through '
+             '(binary nodes, no re-association); parse_pp / parse_pp_at (token-level model of the stratified operator grammar: every expression tree written '
+             'with exactly the necessary parentheses parses back to itself, by induction over the tree, all sizes and nestings - left to right, '
+             '* / over + -, comparisons below arithmetic, && over ||, ! tightest). Correspondence: generated WAWK programs: AST.emit vs the Lean emit, then every emitted form through '
              'the model evaluator vs Wal.eval (value, printed text, final state). Oracle: stdout of the emitted program vs a direct AWK-style '
              'reference evaluation of the generated tree; wawk -o text read back vs the emitted forms; sampled runs of the real wawk / wal command '
              'line tools (direct execution vs -o then wal).',
-        ref='DESIGN.md §6 C20', note='partial: the Earley parser (text -> tree) is not modelled in Lean; that it yields the reference reading is decided by the oracle and '
-             'correspondence over generated programs. Comparisons and ! are written parenthesised (their binding relative to the other operators is not stated by the property); '
+        ref='DESIGN.md §6 C20, §16', note='partial: Lark\'s Earley engine is not modelled; that parse_wawk agrees with the token-level grammar model (parseExpr) and with the generating tree '
+             'is decided by the correspondence and the oracle over generated operator expressions and programs. Comparisons and ! are written parenthesised (their binding relative to the other operators is not stated by the property); '
              'integer-literal array keys (ambiguous with bit selection) and division are outside the generated fragment.',
         technique='Lean 4 proof (shape of the emitted program, && semantics, left-fold value of chains) + emit/evaluator correspondence + reference-evaluation oracle'),
 }
